@@ -5,7 +5,10 @@ Correspondence: Lean `Quote.escape` / `renderSimpleH` / `renderFullH` / `renderS
 standard library on the implementation's output.
 """
 import html
+import itertools
 import json
+import re
+import urllib.parse
 
 import common
 
@@ -107,12 +110,546 @@ def gen_values(tier, r):
     return vals
 
 
+# ----------------------------------------------------------------------------------------------
+# (A) html_quote together with EVERY other option of the var tag
+#
+# The expected text is computed by a reference pipeline written from the tag's documentation
+# (DT_Var doc string): the custom / special format (fmt=) is applied first, the valueless
+# "string manipulation" attributes transform the value "after formatting has been applied"
+# (their mutual order is not documented: every order is accepted), truncation (size/etc) comes
+# last, null= only replaces null values and missing= only missing names.  Nothing below looks at
+# the implementation's tables.
+
+def _esc(s):
+    return html.escape(s, True)
+
+
+def _sql(s):
+    for ch in '\x00\x1a\r':
+        s = s.replace(ch, '')
+    return s.replace("'", "''")
+
+
+def _br(s):
+    return s.replace('\r', '').replace('\n', '<br />\n')
+
+
+def _ident(s):
+    return s
+
+
+REF_FLAGS = {
+    'html_quote': _esc,
+    'lower': str.lower, 'upper': str.upper, 'capitalize': str.capitalize,
+    'spacify': lambda s: s.replace('_', ' '),
+    'sql_quote': _sql,
+    'url_quote': urllib.parse.quote, 'url_quote_plus': urllib.parse.quote_plus,
+    'url_unquote': urllib.parse.unquote, 'url_unquote_plus': urllib.parse.unquote_plus,
+    'newline_to_br': _br,
+    'thousands_commas': _ident,       # only used on texts without a run of four digits (guarded below)
+}
+OTHER_FLAGS = sorted(k for k in REF_FLAGS if k != 'html_quote')
+REF_FMTS = {
+    # special formats
+    'sql-quote': _sql, 'html-quote': _esc,
+    'url-quote': urllib.parse.quote, 'url-quote-plus': urllib.parse.quote_plus,
+    'url-unquote': urllib.parse.unquote, 'url-unquote-plus': urllib.parse.unquote_plus,
+    'multi-line': _br, 'comma-numeric': _ident, 'collection-length': lambda s: str(len(s)),
+    # custom formats = a method of the value
+    'strip': str.strip, 'lower': str.lower, 'upper': str.upper, 'title': str.title, 'swapcase': str.swapcase,
+    # C-style formats
+    '%s': _ident, '[%s]': lambda s: '[%s]' % s, '%-3s': lambda s: '%-3s' % s,
+}
+FMT_NAMES = sorted(REF_FMTS)
+UNQUOTERS = {'url_unquote', 'url_unquote_plus'}
+URLQUOTERS = {'url_quote', 'url_quote_plus', 'url-quote', 'url-quote-plus'}
+FOUR_DIGITS = re.compile(r'[0-9]{4}')
+BIG = 100000
+
+
+def gen_spec(r):
+    """one var tag that asks for html quoting (html_quote attribute, fmt=html-quote, or both) together with
+    0-3 other options; returned as a dict that `spec_source` spells and `spec_accept` predicts"""
+    spec = {'flags': [], 'fmt': None, 'size': None, 'etc': None, 'null': None, 'missing': None}
+    how = r.choice(['attr', 'attr', 'attr', 'attr', 'fmt', 'both'])
+    if how in ('attr', 'both'):
+        spec['flags'].append('html_quote')
+    if how in ('fmt', 'both'):
+        spec['fmt'] = 'html-quote'
+    k = r.choice([1, 1, 1, 2, 2, 3])
+    for opt in r.sample(['flag', 'flag2', 'fmt', 'size', 'null', 'missing'], k):
+        if opt in ('flag', 'flag2'):
+            f = r.choice(OTHER_FLAGS)
+            if f not in spec['flags']:
+                spec['flags'].append(f)
+        elif opt == 'fmt' and spec['fmt'] is None:
+            spec['fmt'] = r.choice(FMT_NAMES)
+        elif opt == 'size':
+            spec['size'] = r.choice([BIG, BIG, 'tight', 'tight+1'])
+            if r.random() < 0.5:
+                spec['etc'] = r.choice(['...', '', '<etc>'])
+        elif opt == 'null':
+            spec['null'] = r.choice(['', 'N', '<null>'])
+        elif opt == 'missing':
+            spec['missing'] = r.choice(['M', '', '<m>'])
+    spec['subject'] = r.choice(['x', 'x', 'name=x', 'name="x"', 'expr="x"', '"x"'])
+    spec['syntax'] = r.choice(['dtml', 'dtml', 'dtml', 'ssi', 'epfs', 'entity'])
+    spec['order'] = r.random()
+    return spec
+
+
+def spec_accept(spec, text):
+    """the set of outputs the documentation allows for the string `text`, or None when the case lies in the
+    territory of a known finding of another property / outside the reference pipeline"""
+    flags = spec['flags']
+    fmt = spec['fmt']
+    if spec['null'] is not None and not text:
+        return None                                        # a null value is replaced by the null text
+    used = set(flags) | ({fmt} if fmt else set())
+    if used & UNQUOTERS and ('%' in text or used & URLQUOTERS):
+        return None                                        # C15-double-unquote: the attribute unquotes twice
+    s = text
+    stages = [s]
+    if fmt:
+        s = REF_FMTS[fmt](s)
+        stages.append(s)
+    outs = set()
+    flag_sets = [flags]
+    if fmt == 'html-quote' and 'html_quote' in flags:
+        # asked for twice: the documented pipeline escapes twice; escaping once is what the property says
+        # about either option -- both are accepted, a raw special never is
+        flag_sets.append([f for f in flags if f != 'html_quote'])
+    for fl in flag_sets:
+        for perm in itertools.permutations(fl):
+            t = s
+            for f in perm:
+                t = REF_FLAGS[f](t)
+                stages.append(t)
+            outs.add(t)
+    if ('thousands_commas' in used or 'comma-numeric' in used) and any(FOUR_DIGITS.search(t) for t in stages):
+        return None                                        # comma insertion itself is C15's subject
+    return outs
+
+
+def spec_source(spec, accept):
+    """(syntax, source) of the tag; `accept` is needed for the tight sizes (truncation must stay an identity)"""
+    attrs = list(spec['flags'])
+    named = []
+    fmt = spec['fmt']
+    syntax = spec['syntax']
+    if fmt is not None:
+        if '%' in fmt or '[' in fmt:
+            if syntax == 'epfs':
+                syntax = 'dtml'
+            named.append('fmt="%s"' % fmt)
+        else:
+            named.append(('fmt=%s' if spec['order'] < 0.5 else 'fmt="%s"') % fmt)
+    if spec['size'] is not None:
+        longest = max(len(a) for a in accept)
+        size = {BIG: BIG, 'tight': longest, 'tight+1': longest + 1}[spec['size']]
+        named.append('size=%d' % size)
+        if spec['etc'] is not None:
+            named.append('etc="%s"' % spec['etc'])
+    if spec['null'] is not None:
+        named.append('null="%s"' % spec['null'])
+    if spec['missing'] is not None:
+        named.append('missing="%s"' % spec['missing'])
+    if syntax == 'entity':
+        if named or not spec['flags'] or spec['subject'] != 'x':
+            syntax = 'dtml'
+        elif spec['flags'] == ['html_quote'] and spec['order'] < 0.5:
+            return 'html', '&dtml-x;'
+        else:
+            fl = list(spec['flags'])
+            common.rng('C03-ent-%r' % (spec['order'],)).shuffle(fl)
+            return 'html', '&dtml.%s-x;' % '.'.join(fl)
+    rr = common.rng('C03-order-%r' % (spec['order'],))
+    rest = attrs + named
+    rr.shuffle(rest)
+    subject = spec['subject']
+    if subject in ('x', '"x"') or rr.random() < 0.5 or not named:
+        parts = [subject] + rest
+    else:
+        # name= / expr= may stand anywhere, but a valueless attribute cannot come first
+        rest.insert(rr.randint(0, len(rest)), subject)
+        if '=' not in rest[0]:
+            first = next(i for i, a in enumerate(rest) if '=' in a)
+            rest.insert(0, rest.pop(first))
+        parts = rest
+    body = ' '.join(parts)
+    if syntax == 'ssi':
+        return 'html', '<!--#var %s-->' % body
+    if syntax == 'epfs':
+        if '"x"' == subject:
+            body = body.replace('"x"', 'expr="x"', 1)
+        # the EPFS tag grammar wants a bare word first: the variable itself or the tag name
+        return 'epfs', '%%(%s%s)s' % ('var ' if spec['order'] < 0.3 or not body.startswith('x ') else '', body)
+    return 'html', '<dtml-var %s>' % body
+
+
+OPTION_ALPHA = list(SPECIALS) * 3 + ['a', 'Z', 'Ab', '_', ' ', '\n', '\r', '\x1a', ';', '+', '%3C', '%26', '%',
+                                     '7', '123', '.', 'é', 'ſ', 'ǆ', '€', '\U0001F600', '&amp;', '&#x27;', "''"]
+
+
+def gen_option_values(tier, r):
+    vals = ['<b>', 'a & b', '"x"', "Moe's <Bar>", '<script>alert("x")</script>', '>€<\U0001f600&', 'plain',
+            "it's", '%3Cb%3E', 'A_B<c>', '1234567<', "'", 'x\r\n<y>']
+    for _ in range(3000 if tier == 'quick' else 40000):
+        k = r.choice([1, 2, 3, 5, 8, 13])
+        vals.append(''.join(r.choice(OPTION_ALPHA) for _ in range(k)))
+    return vals
+
+
+class UrlObj:
+    def __init__(self, u):
+        self.u = u
+
+    def absolute_url(self):
+        return self.u
+
+    def __str__(self):
+        return 'not the url'
+
+
+def check_options(res, tier, r):
+    """html_quote with every other option of the tag, every attribute order and spelling"""
+    vals = gen_option_values(tier, r)
+    per_value = 4 if tier == 'quick' else 8
+    first = True
+    for v in vals:
+        for _ in range(per_value):
+            spec = gen_spec(r)
+            accept = spec_accept(spec, v)
+            if accept is None:
+                res.count('opt_outside_reference')
+                continue
+            syn, src = spec_source(spec, accept)
+            out = render(syn, src, v)
+            res.evaluations += 1
+            res.count('opt_cases')
+            res.count('opt_other_options=%d' % (len(spec['flags']) - ('html_quote' in spec['flags']) +
+                                                sum(spec[k] is not None for k in ('size', 'null', 'missing')) +
+                                                (spec['fmt'] not in (None, 'html-quote'))))
+            if spec['fmt']:
+                res.count('opt_fmt=' + spec['fmt'])
+            for f in spec['flags']:
+                res.count('opt_attr=' + f)
+            if len(accept) > 1:
+                res.count('opt_order_dependent')
+            if out not in accept:
+                res.oracle_fail.append({'case': {'value': v, 'form': src, 'syntax': syn, 'accept': sorted(accept)},
+                                        'what': 'output %r; the documented pipeline (fmt, then the attributes in '
+                                                'any order, then size) gives %r' % (out, sorted(accept))})
+            elif accept == {_esc(v)} and html.unescape(out) != v:
+                res.oracle_fail.append({'case': {'value': v, 'form': src, 'syntax': syn, 'accept': sorted(accept)},
+                                        'what': 'html.unescape(output) != value'})
+            if any(c in v for c in SPECIALS):
+                res.nt(('opt', src, v))
+            if first and len(spec['flags']) > 1:
+                res.sample({'value': v, 'form': src, 'output': out, 'accepted': sorted(accept)})
+                first = False
+    # non-string values: the attributes work on the str() form
+    for v in [7, -3.5, (1, '<'), ['&', "'"], Obj("<o'bj>"), Obj('A_b"'), ValueError("<bad 'value'>")]:
+        for _ in range(30 if tier == 'quick' else 300):
+            spec = gen_spec(r)
+            if spec['fmt'] not in (None, 'html-quote'):
+                spec['fmt'] = None
+                if 'html_quote' not in spec['flags']:
+                    spec['flags'].append('html_quote')
+            accept = spec_accept(spec, str(v))
+            if accept is None:
+                continue
+            syn, src = spec_source(spec, accept)
+            out = render(syn, src, v)
+            res.evaluations += 1
+            res.count('opt_nonstring_cases')
+            if out not in accept:
+                res.oracle_fail.append({'case': {'value': describe(v), 'form': src, 'syntax': syn,
+                                                 'accept': sorted(accept)},
+                                        'what': 'output %r, expected one of %r' % (out, sorted(accept))})
+    # the url attribute: the text inserted is the object's absolute_url()
+    for u in ['http://h/?a=1&b=<2>', "http://h/it's", 'http://h/plain', 'http://h/"q"?x=>']:
+        for syn, src in [('html', '<dtml-var x url html_quote>'), ('html', '<dtml-var x html_quote url>'),
+                         ('html', '<dtml-var name=x url html_quote missing=M>'),
+                         ('html', '<dtml-var expr="x" url html_quote>'),
+                         ('html', '<dtml-var x url fmt=html-quote>'), ('html', '&dtml.url.html_quote-x;'),
+                         ('html', '<!--#var x url html_quote size=100000-->'),
+                         ('epfs', '%(x url html_quote)s')]:
+            out = render(syn, src, UrlObj(u))
+            res.evaluations += 1
+            res.count('opt_url_cases')
+            if out != _esc(u):
+                res.oracle_fail.append({'case': {'value': {'t': 'urlobj', 'v': u}, 'form': src, 'syntax': syn,
+                                                 'accept': [_esc(u)]},
+                                        'what': 'output %r, expected %r' % (out, _esc(u))})
+
+
+# ----------------------------------------------------------------------------------------------
+# (B) the quoted insertion inside a larger template body: what is inserted before / after it in the SAME
+# rendering (tainted values, values that need no quoting, numbers, bytes, None, other tags, blocks, loop
+# iterations) and what the same compiled template inserted in EARLIER renderings must not matter.
+# A scene is a tree of pieces; the expected text of every piece is known from the property (quoted: html.escape
+# of the string form), from C04 (tainted values are always escaped), from Python (str of a number) or is literal.
+
+Q_FORMS = [            # § = the variable
+    '&dtml-§;', '<dtml-var § html_quote>', '<!--#var § html_quote-->', '<dtml-var name=§ html_quote>',
+    '<dtml-var expr="§" html_quote>', '<dtml-var "§" html_quote>',
+    '<dtml-var § fmt=html-quote>', '<dtml-var § html_quote missing="M">', '<dtml-var § html_quote size=100000>',
+    '&dtml.html_quote-§;', '<dtml-var expr="§" fmt="html-quote">', '<dtml-var name=§ missing=M html_quote>',
+]
+P_FORMS = ['<dtml-var §>', '<!--#var §-->', '<dtml-var expr="§">', '<dtml-var § missing="M">', '<dtml-var name=§>',
+           '<dtml-var § null="N">']
+Q_FORMS_E = ['%(§ html_quote)s', '%(var § html_quote)s', '%(§ fmt=html-quote)s', '%(§ html_quote missing=M)s']
+P_FORMS_E = ['%(§)s', '%(var §)s', '%(§ missing=M)s']
+BLOCKS = [('<dtml-if one>', '</dtml-if>', 1), ('<dtml-in seq>', '</dtml-in>', 1), ('<dtml-in seq2>', '</dtml-in>', 2),
+          ('<dtml-with o>', '</dtml-with>', 1), ('<dtml-let z=one>', '</dtml-let>', 1),
+          ('<dtml-unless zero>', '</dtml-unless>', 1), ('<dtml-try>', '<dtml-except>E</dtml-try>', 1),
+          ('<dtml-if zero>no<dtml-else>', '</dtml-if>', 1), ('<dtml-if zero>no<dtml-elif one>', '<dtml-else>no</dtml-if>', 1),
+          ('<dtml-in seq2 reverse>', '</dtml-in>', 2), ('<dtml-if zero>', '</dtml-if>', 0),
+          ('<dtml-try>', '<dtml-finally></dtml-try>', 1)]
+BLOCKS_E = [('%(if one)[', '%(if)]', 1), ('%(in seq)[', '%(in)]', 1), ('%(in seq2)[', '%(in)]', 2),
+            ('%(with o)[', '%(with)]', 1), ('%(unless zero)[', '%(unless)]', 1)]
+LITERALS = ['|', ';', 'lit', '<b>', '&amp;', '"', "'", '/']
+EMPTY_TAGS = ['<dtml-call "1">', '<dtml-comment>x</dtml-comment>', '<dtml-var nothing missing="">']
+# the variables a scene may insert: subjects (dense in specials) and by-standers
+SUBJECTS = ['x', 'y']
+BYSTANDERS = ['t', 't2', 'p', 'n', 'b', 'none', 'x', 'y']
+
+
+def gen_scene(r, epfs, depth=0):
+    """list of pieces: ('lit', text) | ('ins', source, var, quoted) | ('blk', open, close, times, [pieces])"""
+    qf, pf, blocks = (Q_FORMS_E, P_FORMS_E, BLOCKS_E) if epfs else (Q_FORMS, P_FORMS, BLOCKS)
+    pieces = []
+    n = r.randint(2, 6) if depth == 0 else r.randint(1, 4)
+    for _ in range(n):
+        c = r.random()
+        if c < 0.40:
+            var = r.choice(SUBJECTS)
+            pieces.append(('ins', r.choice(qf).replace('§', var), var, True))
+        elif c < 0.70:
+            var = r.choice(BYSTANDERS)
+            quoted = r.random() < 0.4
+            pieces.append(('ins', r.choice(qf if quoted else pf).replace('§', var), var, quoted))
+        elif c < 0.75 and not epfs:
+            # a sub-template inserted by name: rendered in this namespace, its text inserted as is
+            pieces.append(('ins', r.choice(['<dtml-var sub>', '<!--#var sub-->', '<dtml-var name=sub>']), 'sub', False))
+        elif c < 0.87 and depth < 2:
+            o, cl, times = r.choice(blocks)
+            pieces.append(('blk', o, cl, times, gen_scene(r, epfs, depth + 1)))
+        elif c < 0.92 and not epfs:
+            pieces.append(('lit0', r.choice(EMPTY_TAGS)))
+        else:
+            pieces.append(('lit', r.choice(LITERALS[:3] if epfs else LITERALS)))
+        if r.random() < 0.5:
+            pieces.append(('lit', '|'))
+    if depth == 0 and not any(p[0] == 'ins' and p[3] for p in pieces):
+        pieces.append(('ins', qf[0].replace('§', 'x'), 'x', True))
+    return pieces
+
+
+def scene_source(pieces):
+    out = []
+    for p in pieces:
+        if p[0] in ('lit', 'lit0', 'ins'):
+            out.append(p[1])
+        else:
+            out.append(p[1] + scene_source(p[4]) + p[2])
+    return ''.join(out)
+
+
+_sub = []
+
+
+def sub_template():
+    """a compiled template handed in as a value: inserting it renders it in the caller's namespace"""
+    if not _sub:
+        from DocumentTemplate import HTML
+        _sub.append(HTML('[&dtml-x;<dtml-var t>]'))
+    return _sub[0]
+
+
+def text_of(d, data=None):
+    """the string form of a described value"""
+    k = d['t']
+    if k == 'sub':
+        return '[' + _esc(text_of(data['x'])) + (_esc if data['t']['t'] == 'tainted' else _ident)(text_of(data['t'])) + ']'
+    if k in ('str', 'tainted', 'obj'):
+        return d['v']
+    if k == 'bytes':
+        return d['v']                  # ASCII only
+    if k == 'int':
+        return str(d['v'])
+    if k == 'none':
+        return 'None'
+    raise ValueError(k)
+
+
+def describe(v):
+    if isinstance(v, str):
+        return v
+    if isinstance(v, Obj):
+        return {'t': 'obj', 'v': v.s}
+    if isinstance(v, UrlObj):
+        return {'t': 'urlobj', 'v': v.u}
+    return {'t': 'py', 'v': repr(v)}
+
+
+def make_value(d):
+    if not isinstance(d, dict):
+        return d
+    k = d['t']
+    if k == 'py':
+        return eval(d['v'], {'__builtins__': {}, 'ValueError': ValueError, 'KeyError': KeyError,
+                             'Exception': Exception})
+    if k == 'sub':
+        return sub_template()
+    if k == 'str':
+        return d['v']
+    if k == 'tainted':
+        from AccessControl.tainted import TaintedString
+        return TaintedString(d['v'])
+    if k == 'obj':
+        return Obj(d['v'])
+    if k == 'bytes':
+        return d['v'].encode('ascii')
+    if k == 'int':
+        return d['v']
+    if k == 'none':
+        return None
+    if k == 'urlobj':
+        return UrlObj(d['v'])
+    raise ValueError(k)
+
+
+def scene_expected(pieces, data):
+    out = []
+    for p in pieces:
+        if p[0] == 'lit':
+            out.append(p[1])
+        elif p[0] == 'lit0':
+            pass
+        elif p[0] == 'ins':
+            d = data[p[2]]
+            s = text_of(d, data)
+            if 'null="N"' in p[1] and (d['t'] == 'none' or (d['t'] in ('str', 'bytes') and d['v'] == '')):
+                s = 'N'                 # None and '' are null values (false, not zero)
+            elif p[3] or d['t'] == 'tainted':
+                s = _esc(s)
+            out.append(s)
+        else:
+            out.append(scene_expected(p[4], data) * p[3])     # a loop body once per element, in order
+    return ''.join(out)
+
+
+SCENE_ALPHA = list(SPECIALS) * 3 + ['a', 'Z', ' ', ';', 'é', '€', '\U0001F600', '&amp;', '&#x27;', 'b>', '<i']
+
+
+def gen_data(r, prev=None):
+    def special_text():
+        while True:
+            s = ''.join(r.choice(SCENE_ALPHA) for _ in range(r.choice([1, 2, 3, 5, 8])))
+            if any(c in s for c in SPECIALS):
+                return s
+
+    def subject():
+        c = r.random()
+        s = special_text()
+        if c < 0.70:
+            return {'t': 'str', 'v': s}
+        if c < 0.80:
+            return {'t': 'tainted', 'v': s if '<' in s else '<' + s}
+        if c < 0.88:
+            return {'t': 'obj', 'v': s}
+        if c < 0.94:
+            return {'t': 'bytes', 'v': ''.join(ch for ch in s if ord(ch) < 128) or '<'}
+        return {'t': 'str', 'v': r.choice(['plain', '', '0'])}
+
+    def maybe_tainted(p):
+        s = special_text()
+        if r.random() < p:
+            return {'t': 'tainted', 'v': s if '<' in s else '<' + s}
+        return {'t': 'str', 'v': r.choice(['plain', 'ok', s])}
+
+    d = {'x': subject(), 'y': subject(),
+         't': maybe_tainted(0.8), 't2': maybe_tainted(0.5),
+         'p': {'t': 'str', 'v': r.choice(['plain', 'p', 'no specials', 'é€'])},
+         'n': {'t': 'int', 'v': r.choice([0, 7, -3, 10 ** 6])},
+         'b': {'t': 'bytes', 'v': r.choice(['by', '<by>', "b'&", 'plain'])},
+         'none': {'t': 'none'}, 'sub': {'t': 'sub'}}
+    if prev is not None and r.random() < 0.3:
+        # the same subject again after other data went through the template
+        d['x'] = prev['x']
+    return d
+
+
+def render_scene(t, data):
+    kw = {k: make_value(d) for k, d in data.items()}
+    try:
+        return t(one=1, zero=0, seq=[1], seq2=[1, 2], o=_O(), **kw)
+    except Exception as e:  # noqa
+        return ('EXC', type(e).__name__, str(e)[:80])
+
+
+def fresh_template(syntax, src):
+    from DocumentTemplate import HTML, String
+    return (HTML if syntax == 'html' else String)(src)
+
+
+def check_scenes(res, tier, r):
+    n_scenes = 1500 if tier == 'quick' else 12000
+    sampled = False
+    for i in range(n_scenes):
+        epfs = i % 5 == 4
+        syntax = 'epfs' if epfs else 'html'
+        pieces = gen_scene(r, epfs)
+        src = scene_source(pieces)
+        t = fresh_template(syntax, src)
+        history = []
+        data = None
+        for k in range(r.choice([2, 4, 6])):
+            data = gen_data(r, data)
+            want = scene_expected(pieces, data)
+            out = render_scene(t, data)
+            res.evaluations += 1
+            res.count('scene_renders')
+            if data['t']['t'] == 'tainted' or data['t2']['t'] == 'tainted' or data['x']['t'] == 'tainted':
+                res.count('scene_renders_with_tainted_value')
+            if k:
+                res.count('scene_rerenders_of_a_compiled_template')
+            if out != want:
+                res.oracle_fail.append({'case': {'scene': src, 'syntax': syntax, 'data': data,
+                                                 'history': list(history), 'expected': want},
+                                        'what': 'output %r, expected %r (every piece: literal text verbatim, quoted '
+                                                'and tainted insertions html.escape of the string form, others '
+                                                'str())' % (out, want)})
+                break
+            history.append(data)
+            res.nt(('scene', src, json.dumps(data, sort_keys=True)))
+        res.count('scenes')
+        res.count('scene_syntax=' + syntax)
+        if not sampled and '<dtml-in' in src and '<dtml-var t' in src:
+            res.sample({'scene': src, 'data': data, 'output': out})
+            sampled = True
+
+
+
 def run(res, tier, have_driver):
     r = common.rng('C03')
     res.rule = ('every single code point (quick: U+0000-2FFF + 6000 random; thorough: all 1,112,064) and random '
                 'strings over an alphabet dense in & < > " \' and multi-byte characters, through every insertion '
                 'form (8 simple-form spellings, 15 full-path spellings incl. fmt=html-quote with identity options, 6 nested-block spellings, 5 plain spellings; HTML/SSI/EPFS, name and '
-                'expr); non-str values; bytes in 4 encodings; non-trivial = distinct value containing a special')
+                'expr); non-str values; bytes in 4 encodings; non-trivial = distinct value containing a special.  '
+                'OPTIONS: html quoting (html_quote attribute, fmt=html-quote, both) together with 0-3 of ALL other '
+                'options of the tag (11 valueless attributes, 9 special formats, 5 method formats, 3 C-style '
+                'formats, size/etc incl. size == length, null, missing, url) in every attribute order and '
+                'spelling (dtml / SSI / EPFS / &dtml.a.b-x; entities, name, name=, expr=), str and non-str values; '
+                'expected = reference pipeline from the tag documentation (fmt first, attributes in any order, '
+                'size last).  SCENES: random template bodies (1500 quick / 12000 thorough, HTML and EPFS) where '
+                'quoted insertions of x / y stand before and after insertions of tainted strings, strings that '
+                'need no quoting, numbers, None, ASCII bytes, objects, a sub-template that inserts the same variables, empty tags and literal text, on the same '
+                'level and inside if / elif / else / unless / in (1 and 2 iterations, reverse) / with / let / try '
+                'blocks (depth <= 2); each compiled scene is rendered 2-6 times with changing data (tainted <-> '
+                'plain, same subject again); expected = concatenation of the per-piece expectations')
     res.exhaustive = tier == 'thorough'
     vals = gen_values(tier, r)
     reqs = []
@@ -214,6 +751,11 @@ def run(res, tier, have_driver):
                                                 'what': 'output %r, expected %r' % (out, want)})
             if any(c in t for c in SPECIALS):
                 res.nt(('bytes', enc, t))
+    check_options(res, tier, common.rng('C03-options'))
+    check_scenes(res, tier, common.rng('C03-scenes'))
+    res.partial.append('option combinations and scenes are decided by the oracle on the real code only (no model '
+                       'counterpart); html_quote + url_unquote(_plus) on values containing %, and comma insertion on '
+                       'values with four digits in a row, are left to C15 (finding C15-double-unquote)')
     res.partial.append('bytes through the full Var.render path (html_quote + another option, fmt=html-quote) are '
                        'decoded as Latin-1: known finding C03-bytes-fullpath; theorems cover str values and the '
                        'simple-form bytes path is tied by correspondence/oracle only')
@@ -238,8 +780,21 @@ def replay(path):
     with open(path) as f:
         d = json.load(f)
     c = d['first']['case']
-    v = c.get('value')
     syn = c.get('syntax', 'html')
+    if 'scene' in c:
+        # a fresh template object, the earlier renderings in order, then the failing one
+        t = fresh_template(syn, c['scene'])
+        for h in c.get('history', []):
+            render_scene(t, h)
+        out = render_scene(t, c['data'])
+        print(c['scene'])
+        print(repr(out), 'expected', repr(c['expected']))
+        return 0 if out == c['expected'] else 1
+    v = make_value(c.get('value'))
+    if 'accept' in c:
+        out = render(syn, c['form'], v)
+        print(repr(out), 'expected one of', c['accept'])
+        return 0 if out in c['accept'] else 1
     out = render(syn, c['form'], v)
     print(repr(out), 'expected', repr(html.escape(v, True)))
     return 0 if out == html.escape(v, True) else 1
